@@ -2158,7 +2158,12 @@ fn do_case(out: &mut Out, dbg: &mut Option<std::fs::File>, fam: &str, c: &Case) 
             } else {
                 out.bucket("impl_err");
                 out.bucket(&format!("err:{}", c.op));
-                out.case(&req, "err", None, true);
+                // the error text travels in an `@err=` annotation of the request line (ignored by the
+                // reference driver) so that known findings can pin the specific failure
+                let core = e.rsplit("failed: ").next().unwrap_or(&e);
+                let core = core.split(". Inputs were").next().unwrap_or(core);
+                let slug: String = core.chars().map(|ch| if ch.is_ascii_alphanumeric() { ch } else { '_' }).take(100).collect();
+                out.case(&format!("{req} @err={slug}"), "err", None, true);
             }
         }
         Err(m) => {
